@@ -44,11 +44,11 @@ theorem setF_extras_lazy_core (sch : Schema) (inj : Option Inj) (props : Nat →
   have hex0 : dictOf (exs.map fun e => (e.1, ofVal e.2.val)) = exs.map fun e => (e.1, ofVal e.2.val) :=
     dictOf_nodup _ (by simpa [Function.comp_def] using hexnd)
   clear hkwF hexF hnd
-  unfold setF setProg set_nlocals set_nlists set_ndicts
+  unfold setF setFWith setProg set_nlocals set_nlists set_ndicts
   pfonly [hl, kwPV, hf1, hf2, hkw0, hex0]
   simp only [Function.comp_def]
   generalize hF : forLoop _ _ _ = r
-  obtain ⟨hOk, hBad⟩ := set_for0_loop noCall kw
+  obtain ⟨hOk, hBad⟩ := set_for0_loop propCall kw
     { sch := sch, inj := inj, props := props, s := s, c := c, id := id, creating := false,
       nobj := { vals := [], cv := [], dirty := false }, sigSuppress := false, lock := false, vq := vqOf kw }
     [] (some (.bool false)) none none none none none none none none none none none [[], [], []] (kwPV kw) (kwPV exs) [] []
@@ -71,7 +71,7 @@ theorem setF_extras_lazy_core (sch : Schema) (inj : Option Inj) (props : Nat →
     pfonly [kwPV]
     simp only [Function.comp_def]
     generalize hF : forLoop _ _ _ = r
-    obtain ⟨p3, hp⟩ := set_for1_loop noCall (exs.map (·.1))
+    obtain ⟨p3, hp⟩ := set_for1_loop propCall (exs.map (·.1))
       { sch := sch, inj := inj, props := props, s := s, c := c, id := id, creating := false,
         nobj := { vals := [], cv := [], dirty := false }, sigSuppress := false, lock := false, vq := [] }
       (some (.bool false)) none none b3 b4 b5 b6 b7 none none none none [[], [], []]
@@ -92,7 +92,7 @@ theorem setF_extras_lazy_core (sch : Schema) (inj : Option Inj) (props : Nat →
           (Fail.asgOf kw).map fun e => PV.pair (.name e.1) (ofVal e.2) := by simp [Fail.asgOf]
       rw [hitems]
       generalize hF : forLoop _ _ _ = r
-      obtain ⟨c3, c4, hcl⟩ := set_cache_loop noCall set_for2 rfl (Fail.asgOf kw)
+      obtain ⟨c3, c4, hcl⟩ := set_cache_loop propCall set_for2 rfl (Fail.asgOf kw)
         { sch := sch, inj := inj, props := props, s := s, c := c, id := id, creating := false,
           nobj := { vals := [], cv := [], dirty := false }, sigSuppress := false, lock := false, vq := [] }
         (some (.bool false)) none none p3 b4 b5 b6 b7 none none none none [[], [], []]
@@ -113,7 +113,7 @@ theorem setF_extras_lazy_core (sch : Schema) (inj : Option Inj) (props : Nat →
         simp only [applyMem, mapInst_mapInst']
       clear hspy
       generalize hF : forLoop _ _ _ = r
-      obtain ⟨e3, e4, he⟩ := set_extra_loop noCall set_for3 set_for3_eq exs
+      obtain ⟨e3, e4, he⟩ := set_extra_loop propCall propCall_setattr set_for3 set_for3_eq exs
         { sch := sch, inj := inj, props := props, s := spy, c := c, id := id, creating := false,
           nobj := { vals := [], cv := [], dirty := false }, sigSuppress := false, lock := false, vq := [] }
         (some (.bool false)) none none c3 c4 b5 b6 b7 none none none none [[], [], []]
